@@ -12,12 +12,14 @@ def gen_obj(rng, torch, torchtt):
     if kind == "mirror-views":           # a mirror-symmetric train: cores 3, 4 are permuted VIEWS of cores 2, 1 - same storage address, same shape, other strides
         n1, n2, r_ = rng.choice([2, 3]), rng.choice([2, 3]), rng.choice([2, 3])
         x0 = history.rand_tt(rng, dtype, N=[n1, n2], rmax=r_)
-        g1 = x0.cores[0]; g2 = torch.randn(g1.shape[2], n2, g1.shape[2], dtype=torch.float64).to(dtype)
+        rn_ = lambda *shp: torch.tensor(np.array([rng.gauss(0, 1) for _ in range(int(np.prod(shp)))]).reshape(shp), dtype=torch.float64)      # (drawn from the run's own stream: reproducible)
+        g1 = x0.cores[0]; g2 = rn_(g1.shape[2], n2, g1.shape[2]).to(dtype)
         return torchtt.TT([g1, g2, g2.permute(2, 1, 0), g1.permute(2, 1, 0)]), kind
     if kind == "windows":                # two same-shaped windows of one buffer that start at the same address
         n_, r_ = rng.choice([2, 3]), rng.choice([2, 3])
-        buf = torch.randn(r_, 2 * n_, r_, dtype=torch.float64).to(dtype)
-        first = torch.randn(1, 2, r_, dtype=torch.float64).to(dtype); last = torch.randn(r_, 2, 1, dtype=torch.float64).to(dtype)
+        rn_ = lambda *shp: torch.tensor(np.array([rng.gauss(0, 1) for _ in range(int(np.prod(shp)))]).reshape(shp), dtype=torch.float64)
+        buf = rn_(r_, 2 * n_, r_).to(dtype)
+        first = rn_(1, 2, r_).to(dtype); last = rn_(r_, 2, 1).to(dtype)
         return torchtt.TT([first, buf[:, ::2, :], buf[:, :n_, :], last]), kind
     if kind == "cores":
         o_ = history.rand_tt(rng, dtype, ttm=rng.random() < 0.4, d=d)
@@ -116,7 +118,8 @@ def run(tier, seed, replay=None):
                 ref = ttgen.ref_full([c.detach().resolve_conj().numpy() for c in x.cores])
                 if name == "numpy":
                     got = np.asarray(z)
-                    okv = got.shape == ref.shape and np.allclose(got, ref, rtol=1e-5 if x.cores[0].dtype in (torch.float32, torch.complex64) else 1e-12, atol=1e-6 if x.cores[0].dtype in (torch.float32, torch.complex64) else 1e-12)
+                    sp_ = x.cores[0].dtype in (torch.float32, torch.complex64); big_ = float(np.abs(ref).max()) if ref.size else 0.0
+                    okv = got.shape == ref.shape and np.allclose(got, ref, rtol=1e-5 if sp_ else 1e-12, atol=(1e-5 if sp_ else 1e-12) * max(1.0, big_))     # (an entry that is the difference of large terms carries the round-off of the large ones)
                 else:
                     zc = [c.detach().resolve_conj().numpy() for c in z.cores]
                     okv = (len(zc) == len(x.cores) and all(a.shape == tuple(b.shape) for a, b in zip(zc, x.cores))
